@@ -134,6 +134,10 @@ func (m *Matcher) MatchRegexAndExpand(key, template []byte) (string, bool) {
 // regexToPrefix inspects the regex and returns the longest static prefix part of the regex
 // all inputs for which the regex match, must have this prefix
 func regexToPrefix(regex string) []byte {
+	if hasTopLevelAlternation(regex) {
+		// the anchored literals only start the first alternative
+		return nil
+	}
 	substr := ""
 	for i := 0; i < len(regex); i++ {
 		ch := regex[i]
@@ -144,17 +148,53 @@ func regexToPrefix(regex string) []byte {
 				break // can't deduce any substring here
 			}
 		}
+		lit := ""
+		next := i + 1
 		if (ch >= 'a' && ch <= 'z') || (ch >= 'A' && ch <= 'Z') || (ch >= '0' && ch <= '9') || ch == '_' || ch == '-' {
-			substr += string(ch)
+			lit = string(ch)
 			// "\." means a dot character
 		} else if ch == 92 && i+1 < len(regex) && regex[i+1] == '.' {
-			substr += "."
-			i += 1
+			lit = "."
+			next = i + 2
 		} else {
 			//fmt.Println("don't know what to do with", string(ch))
 			// anything more advanced should be regex syntax that is more permissive and hence not a static substring.
 			break
 		}
+		if next < len(regex) && (regex[next] == '?' || regex[next] == '*' || regex[next] == '{') {
+			// the character is quantified and may be absent: the static part ends before it
+			break
+		}
+		substr += lit
+		i = next - 1
 	}
 	return []byte(substr)
+}
+
+// hasTopLevelAlternation reports whether the regex has a '|' outside of any group or
+// character class (or uses \Q..\E quoting, which this scan does not follow)
+func hasTopLevelAlternation(regex string) bool {
+	depth := 0
+	inClass := false
+	for i := 0; i < len(regex); i++ {
+		ch := regex[i]
+		switch {
+		case ch == 92:
+			if i+1 < len(regex) && regex[i+1] == 'Q' {
+				return true
+			}
+			i++
+		case inClass:
+			inClass = ch != ']'
+		case ch == '[':
+			inClass = true
+		case ch == '(':
+			depth++
+		case ch == ')':
+			depth--
+		case ch == '|' && depth <= 0:
+			return true
+		}
+	}
+	return false
 }
